@@ -240,9 +240,12 @@ def live_level(ctx, rng, viol):
                     exp = []
                     for x in range(nl):
                         kind = rng.random()
-                        if kind < 0.15:
+                        if kind < 0.08:
                             body.append("printf '%s part-%d' >&2; sleep 0.05; echo ' rest' >&2" % (n, x))
                             exp.append("%s part-%d rest" % (n, x))
+                        elif kind < 0.18:
+                            body.append("printf '%s frag-%d a' >&2; sleep 0.35; printf ' b' >&2; sleep 0.35; printf ' c' >&2; sleep 0.35; echo ' d' >&2" % (n, x))
+                            exp.append("%s frag-%d a b c d" % (n, x))
                         elif kind < 0.25:
                             body.append("echo '%s long-%d %s' >&2" % (n, x, "L" * 70000))
                             exp.append("%s long-%d %s" % (n, x, "L" * 70000))
@@ -300,6 +303,59 @@ def inband_scenario(ctx, viol, known_hit):
         pr.destroy()
 
 
+def fragments_scenario(ctx, viol):
+    """One stderr line written in four pieces with pauses long enough for the follower to hit end-of-file between them."""
+    pr = Project()
+    try:
+        pr.write("conf.do", "printf 'checking for frobnicator... ' >&2; sleep 0.6; printf 'still looking... ' >&2; sleep 0.6; printf 'almost... ' >&2; sleep 0.6; echo found >&2\necho two-piece >&2\necho ok\n")
+        for j in (1, 3):
+            rc, out, err = pr.run(["redo", "-j%d" % j, "--no-pretty", "--no-color", "--no-status", "conf"], timeout=60)
+            live = attribute(parse_out(err)).get("conf", [])
+            want = ["checking for frobnicator... still looking... almost... found", "two-piece"]
+            if rc != 0 or live != want:
+                p = write_replay("C18", "fragments", dict(kind="impl-monitor", clause="partial lines", j=j, rc=rc, want=want, got=live, stderr=err[-800:]))
+                viol.append(Violation("C18", p, "a stderr line written in four pieces is shown as %r at -j%d" % (live, j)))
+                return
+    finally:
+        pr.destroy()
+
+
+def concurrent_reader_scenario(ctx, viol):
+    """A `redo-log` replay that is part-way through a target's log while that target is rebuilt must still see
+    one complete instance of the log (the log file is replaced atomically, never truncated in place)."""
+    import subprocess, time
+    from proj import clean_env
+    pr = Project()
+    try:
+        n = 40000
+        pr.write("x.do", "b=$(cat bno)\ni=1; while [ $i -le %d ]; do echo \"line $i of x build $b\" >&2; i=$((i+1)); done\necho done\n" % n)
+        pr.write("bno", "1")
+        rc, out, err = pr.run(["redo", "x"], timeout=120)
+        if rc != 0:
+            return
+        env = clean_env()
+        reader = subprocess.Popen("redo-log --no-pretty --no-color --no-status x | (sleep 2.5; cat)", shell=True, cwd=pr.root, env=env,
+                                  stdout=subprocess.PIPE, stderr=subprocess.PIPE, start_new_session=True)
+        time.sleep(0.8)
+        pr.write("bno", "2")
+        rc2, out2, err2 = pr.run(["redo", "x"], timeout=120)
+        try:
+            rout, rerr = reader.communicate(timeout=120)
+        except subprocess.TimeoutExpired:
+            import os, signal
+            os.killpg(reader.pid, signal.SIGKILL)
+            rout, rerr = reader.communicate()
+        got = [l for l in rout.decode("utf-8", "replace").split("\n") if l.startswith("line ")]
+        want = ["line %d of x build 1" % i for i in range(1, n + 1)]
+        want2 = ["line %d of x build 2" % i for i in range(1, n + 1)]
+        if got != want and got != want2:
+            p = write_replay("C18", "reader", dict(kind="impl-monitor", clause="a later replay shows every line exactly once and in order", lines_seen=len(got), lines_expected=n,
+                                                    first_bad=next((i for i, (a, b) in enumerate(zip(got, want)) if a != b), min(len(got), len(want)))))
+            viol.append(Violation("C18", p, "a redo-log replay overlapping a rebuild of the target saw %d of %d lines" % (len(got), n)))
+    finally:
+        pr.destroy()
+
+
 def run(ctx):
     rng = random.Random(ctx["seed"])
     viol = ctx.setdefault("violations", [])
@@ -313,6 +369,10 @@ def run(ctx):
     known_hit = []
     if not viol:
         inband_scenario(ctx, viol, known_hit)
+    if not viol:
+        fragments_scenario(ctx, viol)
+    if not viol:
+        concurrent_reader_scenario(ctx, viol)
     return dict(evaluations=s1["requests"] + s2.get("replays", 0) + s3.get("builds", 0),
                 distinct_nontrivial=s1["parse_accepted"] + s2.get("replays", 0) - s2.get("errors", 0) + s3.get("builds", 0),
                 rule="record-shaped and malformed lines from a seeded grammar (non-trivial = accepted by the parser); synthetic 6-target log forests (records do/unchanged/waiting/done/other, look-alikes, missing files, cycles) replayed by the real redo-log -r with and without -u (non-trivial = replay without error); live builds of random graphs at several -j with numbered/partial/70 kB/trailing-whitespace lines",
